@@ -218,7 +218,93 @@ theorem guard_passed {s : St} (hi : Inv p s) {m : Mode} {mask : Option Mask}
     have := hi.i1 n hnm y hy hnn hyn
     rw [← this]; exact hno
 
-theorem updateMode_inv {s : St} (hi : Inv p s) (m : Mode) (mask : Option Mask) (w : WOpts) :
+/-! ### caller-supplied code in the write options -/
+
+/-- What the invariants need from the caller's own code and reset mask in the options of an `UpdateMode`: the
+record that is written keeps the id of the request and is not turned normal behind the guard's back.  For an
+interceptor `f old new`: it leaves the id alone, and the result is normal only if `new` was or the stored
+record was.  The reset mask does not name `id`.  Options without interceptors and reset mask are tame
+(`tame_plain`); so is everything the servers do. -/
+def WOpts.Tame (w : WOpts) : Prop :=
+  (∀ k, w.reset = some k → Field.id ∉ k.paths) ∧
+  (∀ f, w.before = some f → ∀ old m : Mode,
+    (f old m).id = m.id ∧ ((f old m).normal = true → m.normal = true ∨ old.normal = true)) ∧
+  (∀ g, w.after = some g → ∀ old n : Mode,
+    (g old n).id = n.id ∧ ((g old n).normal = true → n.normal = true ∨ old.normal = true))
+
+def Op.Tame : Op → Prop
+  | .update _ _ w => w.Tame
+  | _ => True
+
+theorem tame_plain (w : WOpts) (hr : w.reset = none) (hb : w.before = none) (ha : w.after = none) : w.Tame :=
+  ⟨fun k h => (by rw [hr] at h; cases h), fun f h => (by rw [hb] at h; cases h), fun g h => (by rw [ha] at h; cases h)⟩
+
+theorem resetMode_id (m : Mode) (r : Option Mask) (h : ∀ k, r = some k → Field.id ∉ k.paths) :
+    (resetMode m r).id = m.id := by
+  cases r with
+  | none => rfl
+  | some k => simp [resetMode, h k rfl]
+
+theorem resetMode_normal (m : Mode) (r : Option Mask) : (resetMode m r).normal = true → m.normal = true := by
+  cases r with
+  | none => exact id
+  | some k =>
+    simp only [resetMode]
+    split
+    · intro h; cases h
+    · exact id
+
+/-- under tame options the written record carries the id of the request, and it is normal only if the stored
+record was or the request says so (in a field the update writes) -/
+theorem written_tame (old m : Mode) (mask : Option Mask) (w : WOpts) (ht : w.Tame) :
+    (written old m mask w).id = m.id ∧
+    ((written old m mask w).normal = true → old.normal = true ∨ (m.normal = true ∧ writesNormal mask = true)) := by
+  obtain ⟨hr, hb, ha⟩ := ht
+  -- InterceptBefore
+  have h1 : (applyIcpt w.before old m).id = m.id ∧
+      ((applyIcpt w.before old m).normal = true → m.normal = true ∨ old.normal = true) := by
+    cases hbf : w.before with
+    | none => exact ⟨rfl, fun h => Or.inl h⟩
+    | some f => exact hb f hbf old m
+  -- merge under the mask extended by `id`
+  have h2 : (mergeMode old (applyIcpt w.before old m) (maskWithId mask)).id = m.id := by
+    rw [mergeMode_withId_id]; exact h1.1
+  have h2n : (mergeMode old (applyIcpt w.before old m) (maskWithId mask)).normal = true →
+      old.normal = true ∨ (m.normal = true ∧ writesNormal mask = true) := by
+    rw [mergeMode_normal, writesNormal_maskWithId]
+    by_cases hw : writesNormal mask = true
+    · simp only [hw, if_true]
+      intro h
+      rcases h1.2 h with h | h
+      · exact Or.inr ⟨h, trivial⟩
+      · exact Or.inl h
+    · simp only [hw]; intro h; exact Or.inl (by simpa using h)
+  -- reset mask
+  have h3 : (resetMode (mergeMode old (applyIcpt w.before old m) (maskWithId mask)) w.reset).id = m.id := by
+    rw [resetMode_id _ _ hr]; exact h2
+  have h3n := fun h => h2n (resetMode_normal (mergeMode old (applyIcpt w.before old m) (maskWithId mask)) w.reset h)
+  -- InterceptAfter
+  unfold written
+  cases haf : w.after with
+  | none => exact ⟨h3, h3n⟩
+  | some g =>
+    simp only [applyIcpt]
+    obtain ⟨hgid, hgn⟩ := ha g haf old (resetMode (mergeMode old (applyIcpt w.before old m) (maskWithId mask)) w.reset)
+    refine ⟨hgid.trans h3, fun h => ?_⟩
+    rcases hgn h with h | h
+    · exact h3n h
+    · exact Or.inl h
+
+theorem storeAt_of_id {key : String} {m : Mode} (h : m.id = key) (l : List Mode) : storeAt key m l = replaceMode m l := by
+  subst h; rfl
+
+theorem insertAt_of_id {key : String} {m : Mode} (h : m.id = key) (l : List Mode) : insertAt key m l = insertMode m l := by
+  subst h
+  induction l with
+  | nil => rfl
+  | cons x xs ih => simp only [insertAt, insertMode, ih]
+
+theorem updateMode_inv {s : St} (hi : Inv p s) (m : Mode) (mask : Option Mask) (w : WOpts) (ht : w.Tame) :
     Inv p (updateMode s m mask w).1 := by
   unfold updateMode
   by_cases hguard : m.normal = true ∧ writesNormal mask = true ∧ otherNormal s m.id = true
@@ -227,78 +313,85 @@ theorem updateMode_inv {s : St} (hi : Inv p s) (m : Mode) (mask : Option Mask) (
     by_cases hinv : maskInvalid mask = true
     · simp only [hinv, if_true]; exact hi
     · simp only [hinv, Bool.false_eq_true, if_false]
-      have hidnew : ∀ old, (mergeMode old m (maskWithId mask)).id = m.id := fun old => mergeMode_withId_id old m mask
-      cases hold : find s m.id with
-      | none =>
-        simp only
-        split
-        · exact hi
-        · split
+      by_cases hrs : maskInvalid w.reset = true
+      · simp only [hrs, if_true]; exact hi
+      · simp only [hrs, Bool.false_eq_true, if_false]
+        cases hold : find s m.id with
+        | none =>
+          simp only
+          split
           · exact hi
-          · -- upsert of an absent id: a new record
-            have hne := find_none hold
-            refine ⟨?_, ?_, ?_, hi.blank⟩
-            · exact nodup_insertMode _ _ (fun x hx => by rw [hidnew]; exact hne x hx) hi.nodup
-            · have nonorm : (mergeMode Mode.blank m (maskWithId mask)).normal = true → ∀ z ∈ s.modes, z.normal = false := by
-                intro hnew z hz
-                rw [mergeMode_normal, writesNormal_maskWithId] at hnew
-                by_cases hw : writesNormal mask = true
-                · simp only [hw, if_true] at hnew
-                  cases hzn : z.normal with
-                  | false => rfl
-                  | true => exact absurd (guard_passed hi hguard hw hnew z hz hzn) (hne z hz)
-                · simp [hw, Mode.blank, Mode.mk4] at hnew
-              intro x hx y hy hxn hyn
-              have hx := (mem_insertMode _ _ _).mp hx
-              have hy := (mem_insertMode _ _ _).mp hy
-              rcases hx with rfl | hx <;> rcases hy with rfl | hy
-              · rfl
-              · have := nonorm hxn y hy; rw [hyn] at this; cases this
-              · have := nonorm hyn x hx; rw [hxn] at this; cases this
-              · exact hi.i1 x hx y hy hxn hyn
-            · intro hc
-              obtain ⟨x, hx, hxa⟩ := hi.i3 hc
-              exact ⟨x, (mem_insertMode _ _ _).mpr (Or.inr hx), hxa⟩
-      | some old =>
-        obtain ⟨holdmem, holdid⟩ := find_some hold
-        simp only
-        split
-        · exact hi
-        · split
+          · split
+            · exact hi
+            · split
+              · exact hi
+              · -- upsert of an absent id: a new record
+                obtain ⟨hid, hnorm⟩ := written_tame Mode.blank m mask w ht
+                simp only [insertAt_of_id hid]
+                have hne := find_none hold
+                refine ⟨?_, ?_, ?_, hi.blank⟩
+                · exact nodup_insertMode _ _ (fun x hx => by rw [hid]; exact hne x hx) hi.nodup
+                · have nonorm : (written Mode.blank m mask w).normal = true → ∀ z ∈ s.modes, z.normal = false := by
+                    intro hnew z hz
+                    rcases hnorm hnew with h | ⟨hm, hw⟩
+                    · simp [Mode.blank, Mode.mk4] at h
+                    · cases hzn : z.normal with
+                      | false => rfl
+                      | true => exact absurd (guard_passed hi hguard hw hm z hz hzn) (hne z hz)
+                  intro x hx y hy hxn hyn
+                  have hx := (mem_insertMode _ _ _).mp hx
+                  have hy := (mem_insertMode _ _ _).mp hy
+                  rcases hx with rfl | hx <;> rcases hy with rfl | hy
+                  · rfl
+                  · have := nonorm hxn y hy; rw [hyn] at this; cases this
+                  · have := nonorm hyn x hx; rw [hxn] at this; cases this
+                  · exact hi.i1 x hx y hy hxn hyn
+                · intro hc
+                  obtain ⟨x, hx, hxa⟩ := hi.i3 hc
+                  exact ⟨x, (mem_insertMode _ _ _).mpr (Or.inr hx), hxa⟩
+        | some old =>
+          obtain ⟨holdmem, holdid⟩ := find_some hold
+          simp only
+          split
           · exact hi
-          · refine ⟨?_, ?_, ?_, hi.blank⟩
-            · simp only [map_id_replaceMode]; exact hi.nodup
-            · -- I1
-              have key : ∀ y ∈ s.modes, y.normal = true → (mergeMode old m (maskWithId mask)).normal = true → y.id = m.id := by
-                intro y hy hyn hnew
-                rw [mergeMode_normal, writesNormal_maskWithId] at hnew
-                by_cases hw : writesNormal mask = true
-                · simp only [hw, if_true] at hnew
-                  exact guard_passed hi hguard hw hnew y hy hyn
-                · simp only [hw] at hnew
-                  have : old = y := hi.i1 old holdmem y hy (by simpa using hnew) hyn
-                  rw [← this]; exact holdid
-              intro x hx y hy hxn hyn
-              obtain ⟨x0, hx0, rfl⟩ := List.mem_map.mp hx
-              obtain ⟨y0, hy0, rfl⟩ := List.mem_map.mp hy
-              by_cases hx1 : x0.id = (mergeMode old m (maskWithId mask)).id <;>
-                by_cases hy1 : y0.id = (mergeMode old m (maskWithId mask)).id
-              · simp only [hx1, hy1, if_true]
-              · simp only [hx1, hy1, if_true, if_false] at hxn hyn ⊢
-                exact absurd ((key y0 hy0 hyn hxn).trans (hidnew old).symm) hy1
-              · simp only [hx1, hy1, if_true, if_false] at hxn hyn ⊢
-                exact absurd ((key x0 hx0 hxn hyn).trans (hidnew old).symm) hx1
-              · simp only [hx1, hy1, if_false] at hxn hyn ⊢
-                exact hi.i1 x0 hx0 y0 hy0 hxn hyn
-            · intro hc
-              obtain ⟨x, hx, hxa⟩ := hi.i3 hc
-              refine ⟨_, List.mem_map.mpr ⟨x, hx, rfl⟩, ?_⟩
-              show (if x.id = (mergeMode old m (maskWithId mask)).id then mergeMode old m (maskWithId mask) else x).id = s.active.id
-              split
-              · rename_i h; rw [← h]; exact hxa
-              · exact hxa
+          · split
+            · exact hi
+            · split
+              · exact hi
+              · obtain ⟨hid, hnorm⟩ := written_tame old m mask w ht
+                simp only [storeAt_of_id hid]
+                refine ⟨?_, ?_, ?_, hi.blank⟩
+                · simp only [map_id_replaceMode]; exact hi.nodup
+                · -- I1
+                  have key : ∀ y ∈ s.modes, y.normal = true → (written old m mask w).normal = true → y.id = m.id := by
+                    intro y hy hyn hnew
+                    rcases hnorm hnew with h | ⟨hm, hw⟩
+                    · have : old = y := hi.i1 old holdmem y hy h hyn
+                      rw [← this]; exact holdid
+                    · exact guard_passed hi hguard hw hm y hy hyn
+                  intro x hx y hy hxn hyn
+                  obtain ⟨x0, hx0, rfl⟩ := List.mem_map.mp hx
+                  obtain ⟨y0, hy0, rfl⟩ := List.mem_map.mp hy
+                  by_cases hx1 : x0.id = (written old m mask w).id <;>
+                    by_cases hy1 : y0.id = (written old m mask w).id
+                  · simp only [hx1, hy1, if_true]
+                  · simp only [hx1, hy1, if_true, if_false] at hxn hyn ⊢
+                    exact absurd ((key y0 hy0 hyn hxn).trans hid.symm) hy1
+                  · simp only [hx1, hy1, if_true, if_false] at hxn hyn ⊢
+                    exact absurd ((key x0 hx0 hxn hyn).trans hid.symm) hx1
+                  · simp only [hx1, hy1, if_false] at hxn hyn ⊢
+                    exact hi.i1 x0 hx0 y0 hy0 hxn hyn
+                · intro hc
+                  obtain ⟨x, hx, hxa⟩ := hi.i3 hc
+                  refine ⟨_, List.mem_map.mpr ⟨x, hx, rfl⟩, ?_⟩
+                  show (if x.id = (written old m mask w).id then written old m mask w else x).id = s.active.id
+                  split
+                  · rename_i h; rw [← h]; exact hxa
+                  · exact hxa
 
-theorem step_inv {s : St} (hi : Inv p s) (op : Op) : Inv p (step s op).1 := by
+theorem tame_default : ({} : WOpts).Tame := tame_plain _ rfl rfl rfl
+
+theorem step_inv {s : St} (hi : Inv p s) (op : Op) (ht : op.Tame) : Inv p (step s op).1 := by
   cases op with
   | create m cands => simp only [step]; split; exact hi; exact createOrAdd_inv hi m cands
   | add m =>
@@ -309,14 +402,14 @@ theorem step_inv {s : St} (hi : Inv p s) (op : Op) : Inv p (step s op).1 := by
       split
       · rename_i h; rw [h] at this; exact this
       · exact this
-  | update m mask w => exact updateMode_inv hi m mask w
+  | update m mask w => simp only [step]; split; exact hi; exact updateMode_inv hi m mask w ht
   | delete id am ex => exact deleteMode_inv hi id am ex
   | setActive m => exact setActive_inv hi m
   | changeActive id now => exact changeActive_inv hi id now
   | clear now => exact changeToNormal_inv hi now
   | findMode id => exact hi
   | sCreate m cands => simp only [step]; split; exact hi; exact createOrAdd_inv hi m cands
-  | sUpdate m mask => simp only [step]; split; exact hi; exact updateMode_inv hi m mask {}
+  | sUpdate m mask => simp only [step]; split; exact hi; exact updateMode_inv hi m mask {} tame_default
   | sDelete id am =>
     simp only [step]
     split
@@ -357,10 +450,11 @@ theorem inv_config (modes : List Mode) (active : Mode) (h : InitOk modes) : Inv 
   intro x hx y hy
   exact h.2 x ((mem_configModes modes x).mp hx) y ((mem_configModes modes y).mp hy)
 
-theorem run_inv {s : St} (hi : Inv p s) (ops : List Op) : Inv p (run s ops) := by
+theorem run_inv {s : St} (hi : Inv p s) (ops : List Op) (ht : ∀ op ∈ ops, op.Tame) : Inv p (run s ops) := by
   induction ops generalizing s with
   | nil => exact hi
-  | cons op ops ih => exact ih (step_inv hi op)
+  | cons op ops ih =>
+    exact ih (step_inv hi op (ht op (by simp))) (fun o ho => ht o (by simp [ho]))
 
 theorem run_append (s : St) (a b : List Op) : run s (a ++ b) = run (run s a) b := by
   induction a generalizing s with
